@@ -183,7 +183,8 @@ theorem setStateBody_eq (s : SetState) : setStateCode s = setStateBody s := by
           · simp only [hP, if_false]
             by_cases hfr : tempCenti.tmod 100 > 0
             · simp only [hfr, if_true]; revert m; decide +kernel
-            · simp only [hfr, if_false]; revert m; decide +kernel)
+            · simp only [hfr, if_false]; revert m; decide +kernel
+            done)
   | (-- the translator reported `unsupported`: `Codec.setStateBody` is the model itself
      cases s; simp [setStateCode, Codec.setStateBody])
 
@@ -357,7 +358,8 @@ theorem parseState_eq (p : Bytes) :
           congr 1
           simp only [temp_eq, temp_eq', temp_eq'', indoor_eq, outdoor_eq]
           simp only [Codec.StateAttrs.ofModel, h20, h22, if_true, if_false, bit1, bit2, bit4, bit8, bit16, bit32, bit64, bit128, temp_eq, mode_eq,
-            band15_eq, band127_eq, indoor_eq, outdoor_eq, display_eq, display_eq', Option.map_none, e19, e21, Option.map_some])
+            band15_eq, band127_eq, indoor_eq, outdoor_eq, display_eq, display_eq', Option.map_none, e19, e21, Option.map_some]
+      done)
   | (unfold Codec.parseState; cases Model.parseState p <;> rfl)
 
 /-! ### crc8.calculate, Frame.checksum / tobytes / validate, Command.tobytes -/
@@ -401,7 +403,8 @@ theorem crc_fold (data : Bytes) (c : UInt8) :
 theorem crc8Calculate_eq (data : Bytes) : Codec.crc8Calculate (Py.ints data) = ((Model.crc8 data).toNat : Int) := by
   first
   | (unfold Codec.crc8Calculate Model.crc8
-     exact crc_fold data 0)
+     exact crc_fold data 0
+     done)
   | (unfold Codec.crc8Calculate; rw [ints_roundtrip])
 
 /-! ### Frame.checksum -/
@@ -424,7 +427,8 @@ theorem checksum_eq (l : Bytes) : Codec.checksum (Py.ints l) = ((Model.checksum 
      rw [band_255, sumI_ints]
      have h : (256 - sumB l % 256) % 256 < 256 := Nat.mod_lt _ (by decide)
      rw [u8_lt _ h]
-     omega)
+     omega
+     done)
   | (unfold Codec.checksum; rw [ints_roundtrip])
 
 /-! ### Frame.tobytes -/
@@ -474,7 +478,8 @@ theorem frameTobytes_eq (dt ft : UInt8) (data : Bytes) :
          simp only [List.map_cons, List.map_append, List.map_nil, List.cons_append, List.nil_append, e]
          rfl
        · simp only [List.all_cons, List.all_nil, Bool.and_eq_true, decide_eq_true_eq, Bool.and_true]
-         omega)
+         omega
+         done)
   | (unfold Codec.frameTobytes; simp [u8_of_toNat'])
 
 /-! ### Frame.validate -/
@@ -533,7 +538,8 @@ theorem frameValidate_eq (frame : Bytes) : Codec.frameValidate frame = Model.fra
        · rw [if_neg hc, if_pos]
          simp only [ne_eq, decide_eq_true_eq]
          intro h; apply hc
-         exact UInt8.toNat_inj.mp (by exact_mod_cast h))
+         exact UInt8.toNat_inj.mp (by exact_mod_cast h)
+         done)
   | rfl
 
 /-! ### Command.tobytes -/
@@ -546,7 +552,8 @@ theorem commandPayload_eq (data : Bytes) (id : UInt8) :
      have e : Py.ints data ++ [(id.toNat : Int)] = Py.ints (data ++ [id]) := by rw [ints_append]; rfl
      rw [e, crc8Calculate_eq]
      refine Eq.trans (congrArg Py.bytesOf ?_) (bytesOf_ok _)
-     simp only [List.map_append, List.map_cons, List.map_nil, Py.ints])
+     simp only [List.map_append, List.map_cons, List.map_nil, Py.ints]
+     done)
   | (unfold Codec.commandPayload; simp [u8_of_toNat'])
 
 /-- **tie.** The whole of `Command.tobytes` (payload, message id, CRC-8, header, checksum) as translated = the model's
@@ -651,7 +658,8 @@ theorem responseValidate_eq (payload : Bytes) : Codec.responseValidate payload =
              first
              | (simpa using h)
              | (have h' : checksum l ≠ x ∧ crc8 l ≠ x := by simpa using h
-                exact ⟨h'.2, h'.1⟩))
+                exact ⟨h'.2, h'.1⟩)
+       done)
   | rfl
 
 /-! ### Command._next_message_id -/
@@ -670,7 +678,8 @@ theorem nextMessageId_eq (c : Nat) :
      rw [band_255]
      simp only []
      rw [u8_mod]
-     first | done | (congr 1 <;> omega))
+     first | done | (congr 1 <;> omega)
+     done)
   | simp [Codec.nextMessageId]
 
 
@@ -691,7 +700,52 @@ theorem parseHumidity_eq (p : Bytes) :
          · subst h; rfl
          · have hn : ¬ ((0 : Int) = (x.toNat : Int)) := by
              intro e; apply h; apply UInt8.toNat_inj.mp; simpa using e.symm
-           simp [h, hn])
+           simp [h, hn]
+           done)
   | rfl
+
+/-! ### AirConditioner._update_state (StateResponse arm) -/
+
+theorem enumGetI_nat (e : List (String × Nat)) (d n : Nat) :
+    Py.enumGetI e d (n : Int) = ((enumGet e d n : Nat) : Int) := by
+  unfold Py.enumGetI enumGet enumValues
+  have h0 : decide ((0 : Int) ≤ (n : Int)) = true := by simp
+  rw [h0, Int.toNat_natCast, Bool.true_and]
+  split <;> rfl
+
+theorem toModel_ofModel (st : StateResp) : Codec.StateAttrs.toModel (Codec.StateAttrs.ofModel st) = st := by
+  obtain ⟨power, temp, mode, fan, swing, turbo, eco, sleep, fahr, indoor, outdoor, filt, disp, freeze, follow, pur, hum, aux, indep⟩ := st
+  simp only [Codec.StateAttrs.toModel, Codec.StateAttrs.ofModel, Int.toNat_natCast, Option.map_map]
+  have h1 : ∀ o : Option Int, Option.map ((fun x => x / 10) ∘ fun x => x * 10) o = o := by
+    intro o; cases o <;> simp [Function.comp]
+  have h2 : ∀ o : Option Nat, Option.map (Int.toNat ∘ fun (n : Nat) => (n : Int)) o = o := by
+    intro o; cases o <;> simp [Function.comp]
+  rw [h1, h1, h2]
+
+/-- **tie.** The `StateResponse` arm of `AirConditioner._update_state` as translated = the model's `updateFromState` (on the
+    attributes it assigns), for every decoded state and both values of `supports_custom_fan_speed`. -/
+theorem updateState_eq (sup : Bool) (st : StateResp) :
+    Codec.updateState sup st.power st.tempCenti (st.mode : Int) (st.fan : Int) (st.swing : Int) st.turbo st.eco st.sleep st.fahrenheit
+        (st.indoor.map (· * 10)) (st.outdoor.map (· * 10)) st.filterAlert st.displayOn st.freeze st.followMe st.purifier
+        (st.humidity.map (fun (n : Nat) => (n : Int))) st.auxHeat st.indepAuxHeat
+      = Codec.UpdAttrs.ofModel sup st := by
+  first
+  | (
+       unfold Codec.updateState Codec.UpdAttrs.ofModel Codec.UpdAttrs.ofDev Dev.updateFromState
+       simp only [enumGetI_nat]
+       cases sup <;> cases st.indepAuxHeat <;> cases st.auxHeat <;> simp
+       done)
+  | (unfold Codec.updateState
+     show Codec.UpdAttrs.ofModel sup (Codec.StateAttrs.toModel (Codec.StateAttrs.ofModel st)) = _
+     rw [toModel_ofModel])
+
+/-- the translated `_update_state` applied to a record of response attributes -/
+def updateOfAttrs (sup : Bool) (a : Codec.StateAttrs) : Codec.UpdAttrs :=
+  Codec.updateState sup a.power_on a.target_temperature a.operational_mode a.fan_speed a.swing_mode a.turbo a.eco a.sleep a.fahrenheit
+    a.indoor_temperature a.outdoor_temperature a.filter_alert a.display_on a.freeze_protection a.follow_me a.purifier
+    a.target_humidity a.aux_heat a.independent_aux_heat
+
+theorem updateOfAttrs_ofModel (sup : Bool) (st : StateResp) :
+    updateOfAttrs sup (Codec.StateAttrs.ofModel st) = Codec.UpdAttrs.ofModel sup st := updateState_eq sup st
 
 end Msmart.CodecEq
